@@ -445,14 +445,15 @@ func (m *Machine) doDispose(force bool) {
 	if !force {
 		m.activeStatesMx.Lock()
 		defer m.activeStatesMx.Unlock()
+		// the queue lock goes before the subscriptions' one, like everywhere else
+		m.queueMx.Lock()
+		defer m.queueMx.Unlock()
 		m.subs.Mx.Lock()
 		defer m.subs.Mx.Unlock()
 		m.tracersMx.Lock()
 		defer m.tracersMx.Unlock()
 		m.handlersMx.Lock()
 		defer m.handlersMx.Unlock()
-		m.queueMx.Lock()
-		defer m.queueMx.Unlock()
 	}
 
 	m.log(LogEverything, "[end] doDispose")
